@@ -72,7 +72,7 @@ func (e *Engine) VerifyFunc(key string) (res *FuncResult) {
 					clause = strings.Join(vs, "; ")
 				}
 				x.vc.obls = append(x.vc.obls, &Obligation{Name: key + ".guarded-access", Func: key, Kind: "lock", Pos: e.pos(fi.Decl.Pos()), Clause: clause, Goal: goal, vc: x.vc})
-				if len(e.db.StopOwned) > 0 && !e.db.StopExempt[key] {
+				if len(e.db.StopOwned)+len(e.db.StopRead) > 0 && !e.db.StopExempt[key] {
 					// one obligation of this name exists for every function, so that an access that
 					// appears in a changed tree is compared with a baseline entry
 					x.vc.obls = append(x.vc.obls, &Obligation{Name: key + ".not-after-stop", Func: key, Kind: "lock", Pos: e.pos(fi.Decl.Pos()),
